@@ -27,18 +27,15 @@ theorem DWake.micro : ∀ rt, MReach rt → ∀ s, DWakeP s (getS rt s) rt.clien
   · intro s a ha rt hr hg h
     refine all_setS_cl DWakeP rt s _ ?_ h
     intro he hm
-    rw [(src_keeps_script s a ha _).2] at he
-    exact DWake.src s rt.client a ha _ hg (DUse.micro rt hr s he hm) (h s he hm)
+    exact DWake.src s rt.client a ha _ hg (DUse.micro rt hr s (Here.intro _) hm) (h s (Here.intro _) hm)
   · intro s a ha rt _ hg h
     refine all_setS_cl DWakeP rt s _ ?_ h
     intro he hm
-    rw [(flt_keeps_script a ha _).2] at he
-    exact DWake.flt s rt.client a ha _ hg (h s he hm)
+    exact DWake.flt s rt.client a ha _ hg (h s (Here.intro _) hm)
   · intro s a ha rt hr hg h
     refine all_setS_cl DWakeP rt s _ ?_ h
     intro he hm
-    rw [(snk_keeps_script s a ha _).2] at he
-    exact DWake.snk s rt.client rt.state a ha _ hg (TInvAll.micro rt hr s) (DUse.micro rt hr s he hm) (h s he hm)
+    exact DWake.snk s rt.client rt.state a ha _ hg (TInvAll.micro rt hr s) (DUse.micro rt hr s (Here.intro _) hm) (h s (Here.intro _) hm)
   · intro a ha rt hr hg h
     exact client_families DWake.Kept DWake.client_base DWake.client_mon DWake.client_cfg DWake.client_start DWake.client_err
       DWake.client_stop DWake.client_acc DWake.client_flush a ha rt (TInvAll.micro rt hr) (DUse.micro rt hr) hg h
